@@ -401,6 +401,39 @@ def waitfor_derive(sc: dict, t: float, rng: random.Random):
     yield sc
 
 
+def double_cancel_base(rng: random.Random, i: int) -> dict:
+    """Three nested awaits with two timeouts (enumerated root timeout above a fixed inner one) over an event on a
+    parallel_handlers bus whose sibling handlers need time to unwind: the second cancellation arrives while the first one is
+    still being cleaned up. Further events are queued so that something is ready to start the moment the lock is free."""
+    t1 = rng.choice([0.2, 0.3, 0.5])
+    par_bus = 1
+    buses = [{'name': 'B0', 'par': rng.random() < 0.2, 'lazy': False, 'hist': None}, {'name': 'B1', 'par': True, 'lazy': False, 'hist': None}]
+    if rng.random() < 0.5:
+        buses.append({'name': 'B2', 'par': False, 'lazy': False, 'hist': None})
+    nb = len(buses)
+    hs = [
+        {'bus': 0, 'pat': 0, 'kind': 'async', 'prog': [['sleep', rng.choice([0, 0.05])], ['disp', 1, 0, 'await', None, {'timeout': t1}], ['sleep', 0.1]], 'cleanup': rng.choice([0, 0.15])},
+        {'bus': 0, 'pat': 1, 'kind': 'async', 'prog': [['disp', 2, par_bus, 'await', rng.choice([None, 0]), {}], ['sleep', 0.1]], 'cleanup': rng.choice([0, 0, 0.15])},
+        {'bus': par_bus, 'pat': 2, 'kind': 'async', 'prog': [['sleep', 2.0]], 'cleanup': 0.4},
+        {'bus': par_bus, 'pat': 2, 'kind': 'async', 'prog': [['sleep', 2.0]], 'cleanup': rng.choice([0.15, 0.4])},
+        {'bus': par_bus, 'pat': 2, 'kind': rng.choice(['async', 'sync']), 'prog': []},
+    ]
+    if rng.random() < 0.5:
+        hs.append({'bus': par_bus, 'pat': 2, 'kind': 'async', 'prog': [['disp', 3, rng.randrange(nb), 'await', None, {}], ['sleep', 1.0]], 'cleanup': rng.choice([0, 0.15])})
+    for b in range(nb):
+        hs.append({'bus': b, 'pat': 3, 'kind': 'async', 'prog': [['sleep', rng.choice([0.05, 0.3])]]})
+    actors = [[['disp', 0, 0, 'await', 0, {}]],
+              [['sleep', rng.choice([0.05, t1 - 0.05])]] + [['disp', 3, rng.randrange(nb), 'fire', rng.choice([0, 0.05]), {}] for _ in range(rng.randint(2, 4))]]
+    return {'seed': rng.randrange(1 << 30), 'buses': buses, 'fwd': [], 'handlers': hs, 'actors': actors}
+
+
+def double_cancel_derive(sc: dict, t: float, rng: random.Random):
+    if t <= 1e-9:
+        return
+    sc['actors'][0][0][5] = {'timeout': t}
+    yield sc
+
+
 def expect_base(rng: random.Random, i: int) -> dict:
     """Event streams on 1-2 buses with simple (non-dispatching) handlers, 1-4 concurrent expect() calls
     with overlapping filters (class / name patterns, include / exclude / deprecated predicate, raising predicates)."""
